@@ -249,8 +249,11 @@ impl McnkChunk {
         // TODO: Add split file support with chunk discovery
         let materials = None;
 
+        // ofs_refs points at MCRF in monolithic files and at MCRD/MCRW in Cataclysm+
+        // split files: the FourCC found there decides which list it is.
         let refs = if header.has_refs() {
-            let data = read_subchunk(reader, mcnk_start_offset, header.ofs_refs, "MCRF")?;
+            let data =
+                read_subchunk_with_id(reader, mcnk_start_offset, header.ofs_refs, ChunkId::MCRF)?;
             if !data.is_empty() {
                 Some(McrfChunk::read_le(&mut std::io::Cursor::new(data))?)
             } else {
@@ -260,30 +263,24 @@ impl McnkChunk {
             None
         };
 
-        // MCRD shares ofs_refs with MCRF (Cataclysm+ split files)
-        // TODO: Add version/file-type detection to distinguish MCRF vs MCRD
-        let doodad_refs = if header.has_refs() {
-            let data = read_subchunk(reader, mcnk_start_offset, header.ofs_refs, "MCRF")?;
+        // MCRD and MCRW have no header offset of their own (MCRW follows MCRD, and both
+        // may follow MCRF), so they are located by their FourCC.
+        let doodad_refs = {
+            let data = scan_for_subchunk(reader, mcnk_start_offset, mcnk_size, ChunkId::MCRD)?;
             if !data.is_empty() {
                 Some(McrdChunk::read_le(&mut std::io::Cursor::new(data))?)
             } else {
                 None
             }
-        } else {
-            None
         };
 
-        // MCRW shares ofs_refs with MCRF (Cataclysm+ split files)
-        // TODO: Add version/file-type detection to distinguish MCRF vs MCRD/MCRW
-        let wmo_refs = if header.has_refs() {
-            let data = read_subchunk(reader, mcnk_start_offset, header.ofs_refs, "MCRF")?;
+        let wmo_refs = {
+            let data = scan_for_subchunk(reader, mcnk_start_offset, mcnk_size, ChunkId::MCRW)?;
             if !data.is_empty() {
                 Some(McrwChunk::read_le(&mut std::io::Cursor::new(data))?)
             } else {
                 None
             }
-        } else {
-            None
         };
 
         // MCAL and MCSH use size from MCNK header, not from subchunk header
@@ -510,6 +507,32 @@ fn read_subchunk<R: Read + Seek>(
     let mut data = vec![0u8; subchunk_header.size as usize];
     reader.read_exact(&mut data)?;
 
+    Ok(data)
+}
+
+/// Read a subchunk only if the chunk found at the offset has the expected FourCC.
+///
+/// Used for header offsets that are shared by several subchunk types (`ofs_refs`).
+/// Returns empty data when another subchunk is stored at that offset.
+fn read_subchunk_with_id<R: Read + Seek>(
+    reader: &mut R,
+    mcnk_start_offset: u64,
+    offset: u32,
+    expected: ChunkId,
+) -> BinResult<Vec<u8>> {
+    if offset == 0 {
+        return Ok(Vec::new());
+    }
+
+    let subchunk_pos = mcnk_start_offset + u64::from(offset);
+    reader.seek(SeekFrom::Start(subchunk_pos))?;
+    let subchunk_header = ChunkHeader::read_le(reader)?;
+    if subchunk_header.id != expected {
+        return Ok(Vec::new());
+    }
+
+    let mut data = vec![0u8; subchunk_header.size as usize];
+    reader.read_exact(&mut data)?;
     Ok(data)
 }
 
